@@ -270,6 +270,9 @@ pub fn run(ctx: &mut Ctx) {
         |c| json!(espada_token(&c.tok, c.weight).to_string()),
     );
     ctx.extra.insert("exhaustive_over".into(), json!(format!("every pattern of every row with <= {} cells ({} ranges); all 3,796 tokens x {} weights", ctx.tier.pick(7, 13), sweep.len(), ws.len())));
+    if ctx.tier == Tier::Thorough && !ctx.failed() {
+        crate::fuzzrun::campaign(ctx, "fz_range", 6000, 16, 400);
+    }
 }
 
 pub fn all_tokens_cached() -> &'static Vec<Tok> {
